@@ -276,6 +276,65 @@ static void bigstream(U64 total, U64 seed) {
     free(in); free(exp); free(out); free(dec);
 }
 
+/* ---------------- finding F7 probe: LDM on, one frame, `ncalls` flushes of 6 bytes, then `tail` chunks of 64 KiB --------
+ * pure public API (ZSTD_compressStream2 + ZSTD_e_flush); decoded on the fly; content verified by the frame
+ * checksum (tiny phase) and byte compare (tail).  Blocks below 7 bytes never reach ZSTD_ldm_generateSequences,
+ * the only place where the LDM window is overflow-corrected, while ZSTD_window_update advances it. */
+static void ldmtiny(U64 ncalls, U64 tail) {
+    static BYTE in[8]; BYTE* const out = (BYTE*)malloc(1 << 18); BYTE* const dec = (BYTE*)malloc(1 << 18);
+    BYTE* const big = (BYTE*)malloc(BCH);
+    U64 i, decoded = 0; int ok = 1; size_t r = 0;
+    const ZSTD_window_t* const lw = &cctx->ldmState.window;
+    apply_params(cctx);
+    ZSTD_CCtx_setParameter(cctx, ZSTD_c_checksumFlag, 1);
+    ZSTD_DCtx_reset(dctx, ZSTD_reset_session_and_parameters);
+    ZSTD_DCtx_setParameter(dctx, ZSTD_d_windowLogMax, ZSTD_WINDOWLOG_MAX);
+    for (i = 0; i < ncalls + tail && ok; i++) {
+        ZSTD_inBuffer ib; int const isTail = i >= ncalls; int const last = (i == ncalls + tail - 1);
+        if (!isTail) { in[0] = (BYTE)i; in[1] = (BYTE)(i >> 8); in[2] = 'c'; in[3] = 'd'; in[4] = 'e'; in[5] = 'f'; ib.src = in; ib.size = 6; }
+        else { gen_chunk(big, i, 77); ib.src = big; ib.size = BCH; }
+        ib.pos = 0;
+        if (i == ncalls) {
+            printf("T api=ldmtiny phase=tiny-done calls=%llu ldmidx=%lld ldmexact=%d", (unsigned long long)ncalls, (ll)(lw->nextSrc - lw->base),
+                   (ll)(lw->nextSrc - lw->base) >= 0 && (ll)(lw->nextSrc - lw->base) < 4294967296LL);
+            printf(" lnbovf=%u msnbovf=%u\n", lw->nbOverflowCorrections, cctx->blockState.matchState.window.nbOverflowCorrections);
+            fflush(stdout);
+        }
+        for (;;) {
+            ZSTD_outBuffer ob; ZSTD_inBuffer db;
+            ob.dst = out; ob.size = 1 << 18; ob.pos = 0;
+            r = ZSTD_compressStream2(cctx, &ob, &ib, last ? ZSTD_e_end : ZSTD_e_flush);
+            if (ZSTD_isError(r)) { printf("E ldmtiny compress %s\n", ZSTD_getErrorName(r)); ok = 0; break; }
+            db.src = out; db.size = ob.pos; db.pos = 0;
+            while (db.pos < db.size && ok) {
+                ZSTD_outBuffer dob; size_t dr;
+                dob.dst = dec; dob.size = 1 << 18; dob.pos = 0;
+                dr = ZSTD_decompressStream(dctx, &dob, &db);
+                if (ZSTD_isError(dr)) { printf("E ldmtiny decompress %s at %llu\n", ZSTD_getErrorName(dr), (unsigned long long)decoded); ok = 0; break; }
+                if (isTail && decoded >= ncalls * 6 && dob.pos) {     /* tail: byte compare */
+                    U64 q = decoded - ncalls * 6; size_t k = 0;
+                    while (k < dob.pos && ok) {
+                        U64 const ci = ncalls + q / BCH; size_t const co = (size_t)(q % BCH);
+                        size_t const m = (dob.pos - k < BCH - co) ? dob.pos - k : BCH - co;
+                        static BYTE* exp = NULL; static U64 expChunk = (U64)-1;
+                        if (!exp) exp = (BYTE*)malloc(BCH);
+                        if (ci != expChunk) { gen_chunk(exp, ci, 77); expChunk = ci; }
+                        if (memcmp(dec + k, exp + co, m) != 0) { printf("E ldmtiny content differs near %llu\n", (unsigned long long)(decoded + k)); ok = 0; }
+                        k += m; q += m;
+                    }
+                }
+                decoded += dob.pos;
+            }
+            if (!ok || (r == 0 && ib.pos == ib.size)) break;
+        }
+    }
+    if (decoded != ncalls * 6 + tail * BCH) ok = 0;
+    printf("G api=ldmtiny size=%llu csize=0 rt=%d maxidx=0 nbovf=%u ldmidx=%lld", (unsigned long long)(ncalls * 6 + tail * BCH), ok,
+           cctx->blockState.matchState.window.nbOverflowCorrections, (ll)(lw->nextSrc - lw->base));
+    state_out(cctx); printf("\n");
+    free(out); free(dec); free(big);
+}
+
 int main(int argc, char** argv) {
     char* line = NULL; size_t cap = 0;
     static ll a[2 * MAXCH + 16];
@@ -312,6 +371,7 @@ int main(int argc, char** argv) {
         else if (!strcmp(cmd, "oneshot")) frame_oneshot((size_t)a[0], (size_t)a[1]);
         else if (!strcmp(cmd, "stream")) frame_stream((size_t)a[0], (size_t)a[1], (size_t)a[2], (size_t)a[3], (int)a[4]);
         else if (!strcmp(cmd, "bigstream")) bigstream((U64)a[0], (U64)a[1]);
+        else if (!strcmp(cmd, "ldmtiny")) ldmtiny((U64)a[0], (U64)a[1]);
         else if (!strcmp(cmd, "bufferless")) {
             /* wlog clog hlog slog mml tlen strat checksum nch (off size)* */
             ZSTD_compressionParameters cp;
